@@ -185,7 +185,7 @@ class C16(core.Check):
         for i in range(nsh):
             yield dict(fam='shell', s=rnd.getrandbits(48), ctx=rnd.choice([-1, 0, 1, 2, 5]),
                        files=rnd.choice([1, 1, 2, 2, 3]), latex=rnd.random() < .3)
-        for i in range(nsh // 4):
+        for i in range(nsh // 2):
             yield dict(fam='shellml', s=rnd.getrandbits(48), ctx=rnd.choice([-1, 0, 2]))
 
     def judge_shellml(self, case, cnt):
@@ -350,7 +350,7 @@ class C16(core.Check):
         return {'fam_direct': 3000, 'rows_checked': 10000, 'matches_in_place': 3000, 'matches_in_overlap_list': 500,
                 'matches_split_over_lines': 100, 'whole_file_reports': 300, 'shell_reports': 60,
                 'shell_reports_fully_checked': 30, 'index_pages': 10, 'multi_file_reports_fully_checked': 20,
-                'shellml_reports': 40, 'shellml_own_messages': 100}
+                'shellml_reports': 100, 'shellml_own_messages': 300, 'shelltex_repeated_part': 10}
 
 
 CHECK = C16
